@@ -958,7 +958,7 @@ func (vm *VM) throw(err *RuntimeError, noTrace bool) error {
 
 	for index >= 0 {
 		f := &(vm.frames[index])
-		err.addTrace(getFrameSourcePos(f))
+		err.Trace = append(err.Trace, getFrameSourcePos(f))
 		if f.errHandlers.hasHandler() {
 			frame = f
 			break
